@@ -315,7 +315,10 @@ def solveCase : P String := do
         pure (beSolve (α := Float) floatOps pr.cfg p K atol.toArray rtol dt Y (freshScratch pr.cfg ncell 1 0.0) 200000)
     let Yf := if clamp then clampNonNeg floatOps res.Y else res.Y
     let Yf := Yf.map fun row => (perm.map fun i => rd row i).toArray
-    pure s!"solve status={statusStr res.status} final={showF res.finalTime} stats={showStats res.stats} y={showMat Yf} trace={showTrace pr.cfg res.trace traceLimit}"
+    -- per attempted Rosenbrock step: the alpha handed to AlphaMinusJacobian and the error norm (first 48)
+    let att := if integ == 0 && traceLimit > 0 then
+        " ".intercalate ((res.trace.take 48).map fun a => s!"{showF a.alpha}:{showF a.error}") else ""
+    pure s!"solve status={statusStr res.status} final={showF res.finalTime} stats={showStats res.stats} y={showMat Yf} trace={showTrace pr.cfg res.trace traceLimit} att={att}"
 
 def runLine (line : String) : String :=
   let toks := (line.trimAscii.toString.splitOn " ").filter (· != "")
@@ -427,6 +430,7 @@ structure HState where
   Y : Mat Float
   K : Mat Float
   P : Mat Float          -- custom rate parameters
+  conds : Array (Conditions Float) := #[]
   sc : Scratch Float
   atol : Array Float
   rtol : Float
@@ -454,6 +458,7 @@ def histCase : P String := do
     let stages2 := if integ2 == 0 then rosP2.stages else 1
     let fresh : HState := { Y := Array.replicate ncell (Array.replicate ns 0.0), K := Array.replicate ncell (Array.replicate nrx 0.0),
                             P := Array.replicate ncell (Array.replicate nrx 0.0),
+                            conds := Array.replicate ncell { temperature := 0.0, pressure := 0.0, airDensity := 0.0 },
                             sc := freshScratch pr.cfg ncell stages 0.0, atol := Array.replicate ns 1.0e-3, rtol := 1.0e-6 }
     let mut store : Array (Option HState) := Array.replicate 8 none
     let mut outs : List String := []
@@ -478,6 +483,31 @@ def histCase : P String := do
         match store.getD s none with
         | some st => store := store.setIfInBounds s (some { st with K := matOf ncell nrx vals }); outs := outs ++ ["ok"]
         | none => outs := outs ++ ["nostate"]
+      | "setcond" =>
+        let s ← nat; let c ← nat; let v ← flts 3
+        match store.getD s none with
+        | some st =>
+          let conds := st.conds.setIfInBounds c { temperature := v.getD 0 0.0, pressure := v.getD 1 0.0, airDensity := v.getD 2 0.0 }
+          store := store.setIfInBounds s (some { st with conds }); outs := outs ++ ["ok"]
+        | none => outs := outs ++ ["nostate"]
+      | "setp" =>
+        let s ← nat; let rr ← nat; let vals ← flts ncell
+        match store.getD s none with
+        | some st =>
+          let P := st.P.mapIdx fun c row => wr row rr (vals.getD c 0.0)
+          store := store.setIfInBounds s (some { st with P }); outs := outs ++ ["ok"]
+        | none => outs := outs ++ ["nostate"]
+      | "calc" =>
+        let s ← nat
+        match store.getD s none with
+        | some st =>
+          -- every reaction of a history mechanism has a user-defined rate constant labelled `r<i>` with scaling factor 1
+          let rprocs : List (RateProc Float) := mech.zipIdx.map fun (p, i) =>
+            { kind := .userDefined s!"r{i}" 1.0, nParamReactants := (p.reactants.filter (·.param)).length }
+          let K := calculateRateConstants floatTOps 3.14159265358979323846 6.02214076e23 rprocs st.conds st.P
+          store := store.setIfInBounds s (some { st with K }); outs := outs ++ [showMat K]
+        | none => outs := outs ++ ["nostate"]
+      | "mvs_c" | "mvs_a" => let _ ← nat; outs := outs ++ ["ok"]
       | "settol" =>
         let s ← nat; let atl ← flts ns; let rt ← flt
         match store.getD s none with
